@@ -64,6 +64,8 @@ type ScanServer struct {
 	// HoldCloses: close requests are honoured (the scanner is released) but never answered: the
 	// client's close calls stay outstanding
 	HoldCloses bool
+	// HoldRenews: lease renewals are honoured but never answered.
+	HoldRenews bool
 	Problems    []string
 	CloseReqs   int
 	RenewReqs   int
@@ -106,6 +108,13 @@ func (s *ScanServer) OpenScanners() []uint64 {
 	}
 	sort.Slice(out, func(i, j int) bool { return out[i] < out[j] })
 	return out
+}
+
+// RenewCount returns the number of lease renewals received so far.
+func (s *ScanServer) RenewCount() int {
+	s.mu.Lock()
+	defer s.mu.Unlock()
+	return s.RenewReqs
 }
 
 // RequestCount returns the number of scan requests (opens and nexts) served so far.
@@ -181,6 +190,9 @@ func (s *ScanServer) Handle(c *Cluster, sc *Conn, reg *Region, ctx *ScanCtx) *Re
 		}
 		if req.GetRenew() {
 			s.RenewReqs++
+			if s.HoldRenews {
+				return &Reply{NoReply: true}
+			}
 			return &Reply{Msg: &pb.ScanResponse{ScannerId: proto.Uint64(rs.id), MoreResultsInRegion: proto.Bool(true), MoreResults: proto.Bool(true)}}
 		}
 		return s.respond(c, rs, req)
